@@ -9,11 +9,16 @@ for sid in ids:
     d = os.path.join(HERE, 'seeded', sid)
     pid = json.load(open(os.path.join(d, 'meta.json')))['breaks_property']
     t0 = time.time()
+    # the evidence file of the property describes the unchanged tree: keep it, and put it back after the run on the changed tree
+    evp = os.path.join(HERE, 'evidence', pid + '.json')
+    saved = open(evp).read() if os.path.exists(evp) else None
     subprocess.run(['git', '-C', '/repo', 'apply', os.path.join(d, 'patch.diff')], check=True)
     try:
         p = subprocess.run([os.path.join(HERE, 'check'), pid, '--tier', 'quick'], capture_output=True, text=True, cwd=HERE)
     finally:
         subprocess.run(['git', '-C', '/repo', 'checkout', '--', '.'], check=True)
+        if saved is not None:
+            open(evp, 'w').write(saved)
     lines = p.stdout.strip().split('\n')
     vio = [l for l in lines if l.startswith('VIOLATION')]
     reason = [l.strip() for l in lines if l.strip().startswith('reason:')]
